@@ -4,6 +4,8 @@
 package c18doc
 
 import (
+	"bytes"
+	"compress/zlib"
 	"fmt"
 
 	"seehuhn.de/go/pdf"
@@ -21,6 +23,10 @@ type Info struct {
 	Bodies   map[pdf.Reference][]byte
 	Want     map[pdf.Reference]pdf.Object // expected Get results (Streams: dict)
 	Chains   map[pdf.Reference][]pdf.Reference
+	// BadStream is a stream whose second filter cannot be set up (the data
+	// is deflated once but declared /Filter [/FlateDecode /FlateDecode]):
+	// DecodeStream fails after it has built the first stage.
+	BadStream pdf.Reference
 }
 
 func Build(t *tape.Tape) (*Info, error) {
@@ -96,6 +102,16 @@ func Build(t *tape.Tape) (*Info, error) {
 		d.Streams = append(d.Streams, ref)
 		d.Bodies[ref] = body
 		d.Want[ref] = pdf.Dict{"Idx": pdf.Integer(i)}
+	}
+	if version >= pdf.V1_2 {
+		var zb bytes.Buffer
+		zw := zlib.NewWriter(&zb)
+		zw.Write(bytes.Repeat([]byte("deflated only once "), 40))
+		zw.Close()
+		d.BadStream = w.Alloc()
+		if err := w.Put(d.BadStream, pdf.NewStream(pdf.Dict{"Filter": pdf.Array{pdf.Name("FlateDecode"), pdf.Name("FlateDecode")}}, zb.Bytes())); err != nil {
+			return nil, err
+		}
 	}
 	pages := w.Alloc()
 	w.Put(pages, pdf.Dict{"Type": pdf.Name("Pages"), "Kids": pdf.Array{}, "Count": pdf.Integer(0)})
